@@ -604,23 +604,25 @@ def evalSlot (W : World) : Nat → Ctx → St → List Attr → List Node → R 
   | f + 1, ctx, st, attrs, kids =>
     let name := if getAttr attrs (S "name") == [] then S "default" else getAttr attrs (S "name")
     let props := slotProps W.P (st.stack.envMap W.P.cfg) attrs
-    -- no content supplied on the include tag(s): content the page handed to the layout is spliced in AS PARSED (a copy per use, not evaluated),
+    -- supplied content belongs to whoever wrote it: a `<slot>` inside it refers to THAT file's slots (`outer`), never to this instance's own
+    -- content again (fix: SlotScope.Outer); it is evaluated with the props this slot binds
+    let supplied (content : SlotContent) (ctx' : Ctx) : R (List Node) :=
+      match content.tmpl with
+      | some tk =>
+        bindR (evalList W f ctx' { st with stack := slotScopeStack st.stack (scopedVarName tk.1) props } tk.2)
+          (fun res st1 => .ok (res, { st1 with stack := st1.stack.pop }))
+      | none => evalList W f ctx' st content.nodes
+    -- nothing supplied on the include tag(s): content the PAGE handed to its layout chain is evaluated the same way (fix: it used to be
+    -- placed as parsed, mustaches and all) - the page has no slots of its own, so inside it the page's slots are hidden -
     -- else the slot's own fallback children are evaluated
     let unsupplied : R (List Node) :=
       match ctx.inherited.lookup name with
-      | some content => .ok (content.nodes, st)
+      | some content => supplied content { ctx with slots := [], inherited := [] }
       | none => if !kids.isEmpty then evalList W f ctx st kids else .ok ([], st)
     match ctx.slots with
     | sc :: outer =>
       (match sc.lookup name with
-       | some content =>
-         -- supplied content belongs to the includer: a `<slot>` inside it refers to the includer's slots, never to this instance's own
-         -- content again (fix: SlotScope.Outer)
-         (match content.tmpl with
-          | some tk =>
-            bindR (evalList W f { ctx with slots := outer } { st with stack := slotScopeStack st.stack (scopedVarName tk.1) props } tk.2)
-              (fun res st1 => .ok (res, { st1 with stack := st1.stack.pop }))
-          | none => evalList W f { ctx with slots := outer } st content.nodes)
+       | some content => supplied content { ctx with slots := outer }
        | none => unsupplied)
     | [] => unsupplied
 
